@@ -1,0 +1,190 @@
+//go:build verif
+
+// Machine-checked contracts for package model (comment-only; read by /verif/govc).
+package model
+
+//@ package github.com/basecomplextech/spec/internal/lang/model
+
+// ---- language rules (C14): a definition that is accepted satisfies the rule
+//
+// Each rule of the schema language is the postcondition "no error ==> the rule holds" of the
+// function that builds or validates the element.
+
+// Kinds: syntax.Kind and model.Kind number the builtin kinds 1..17 (with floats and bins in a
+// different order), list is 18 in both, a reference is syntax 19 / model 23; after resolution a
+// reference becomes enum 19, message 20, struct 21 or service 22.
+// The tables 'builtin' (kinds 1..17) and 'primitive' (kinds 2..14) are written only by the package
+// initialiser; their content is ASSUMED as stated here (a transcription of the two literals).
+//@ global builtin: forall k :: has(builtin, k) <==> (1 <= k && k <= 17)
+//@ global builtin: forall k :: has(builtin, k) ==> builtin[k] != nil && builtin[k].Kind == k
+//@ global primitive: forall k :: has(primitive, k) <==> (2 <= k && k <= 14)
+
+// well-formed syntax types: a list type has an element type (every grammar rule that builds a list
+// type sets it); assumed of every syntax.Type object
+//@ define WFSYN() = (forall x :: x > 0 && cast(x, syntax.Type).Kind == 18 ==> cast(x, syntax.Type).Element != nil && off(cast(x, syntax.Type).Element) == 0)
+
+//@ func parseKind
+//@   safety[C14]
+//@   ensures[C14] result1 == nil ==> 1 <= result0 && (result0 <= 18 || result0 == 23)
+//@   ensures[C14] result1 == nil ==> (result0 == 18 <==> pkind == 18) && (result0 == 23 <==> pkind == 19) && (result0 == 1 <==> pkind == 1) && (result0 == 17 <==> pkind == 17)
+//@   ensures[C14] result1 != nil ==> result0 == 0
+
+//@ func newType
+//@   safety[C14]
+//@   requires ptype != nil && off(ptype) == 0 && WFSYN()
+//@   ensures[C14] result1 == nil ==> result0 != nil
+//@   ensures[C14] result1 != nil ==> result0 == nil
+//@   ensures[C14] result1 == nil && ptype.Kind == 18 ==> result0.Kind == 18 && result0.Element != nil
+//@   ensures[C14] result1 == nil && ptype.Kind != 18 ==> result0.Kind != 18
+
+// tags are 1..65535 (16-bit field tags of the wire format and of the generated accessors)
+//@ func newField
+//@   safety[C14]
+//@   requires pfield != nil && pfield.Type != nil && off(pfield.Type) == 0 && WFSYN()
+//@   ensures[C14] result1 == nil ==> result0 != nil && result0.Tag == pfield.Tag && result0.Name == pfield.Name
+//@   ensures[C14] result1 == nil ==> 1 <= result0.Tag && result0.Tag <= 65535
+//@   ensures[C14] result1 != nil ==> result0 == nil
+
+// enum numbers fit the generated int32 type
+//@ func parseEnumValue
+//@   safety[C14]
+//@   requires pval != nil
+//@   ensures[C14] result1 == nil ==> result0 != nil && result0.Number == pval.Value && result0.Name == pval.Name
+//@   ensures[C14] result1 == nil ==> 0 - 2147483648 <= result0.Number && result0.Number <= 2147483647
+//@   ensures[C14] result1 != nil ==> result0 == nil
+
+// ---- uniqueness rules as representation invariants: the name index of a list contains every
+// element and the names are pairwise distinct; the single function that adds an element keeps it.
+
+//@ func newImport
+//@   safety[C14]
+//@   requires pimp != nil
+//@   ensures[C14] result1 == nil ==> result0 != nil && result0.Name != "" && result0.ID == pimp.ID
+//@   ensures[C14] result1 != nil ==> result0 == nil
+
+//@ define IMPS(f) = (f.ImportMap != nil && (forall i :: 0 <= i && i < len(f.Imports) ==> f.Imports[i] != nil && has(f.ImportMap, f.Imports[i].Name)) && (forall i, j :: 0 <= i && i < j && j < len(f.Imports) ==> f.Imports[i].Name != f.Imports[j].Name))
+
+//@ func (*File).parseImport
+//@   safety[C14]
+//@   requires f != nil && pimp != nil && IMPS(f)
+//@   modifies model.File.Imports at f
+//@   modifies maphas.map_string__model.Import at f.ImportMap
+//@   modifies mapval.*
+//@   modifies ptr#o
+//@   modifies ptr#f
+//@   ensures[C14] IMPS(f)
+//@   ensures[C14] result == nil ==> len(f.Imports) == old(len(f.Imports)) + 1
+//@   ensures[C14] result != nil ==> len(f.Imports) == old(len(f.Imports))
+
+// enum values: unique names and numbers; a zero value is required
+//@ define ENUMS(e) = (e.ValueNames != nil && e.ValueNumbers != nil && (forall i :: 0 <= i && i < len(e.Values) ==> e.Values[i] != nil && has(e.ValueNames, e.Values[i].Name) && has(e.ValueNumbers, e.Values[i].Number)) && (forall i, j :: 0 <= i && i < j && j < len(e.Values) ==> e.Values[i].Name != e.Values[j].Name && e.Values[i].Number != e.Values[j].Number))
+//@ define ENUMZ(e) = (forall k :: has(e.ValueNumbers, k) ==> (exists i :: 0 <= i && i < len(e.Values) && e.Values[i].Number == k))
+
+//@ func (*Enum).parseValue
+//@   safety[C14]
+//@   requires e != nil && e.Def != nil && pval != nil && ENUMS(e)
+//@   modifies model.Enum.Values at e
+//@   modifies maphas.map_string__model.EnumValue at e.ValueNames
+//@   modifies maphas.map_int__model.EnumValue at e.ValueNumbers
+//@   modifies mapval.*
+//@   modifies ptr#o
+//@   modifies ptr#f
+//@   ensures[C14] ENUMS(e)
+//@   ensures[C14] result == nil ==> len(e.Values) == old(len(e.Values)) + 1 && e.Values[len(e.Values) - 1].Number == pval.Value && e.Values[len(e.Values) - 1].Name == pval.Name
+//@   ensures[C14] result == nil ==> 0 - 2147483648 <= pval.Value && pval.Value <= 2147483647
+//@   ensures[C14] result != nil ==> len(e.Values) == old(len(e.Values))
+
+// methods of a service: unique names
+//@ define METHS(s) = (s.MethodNames != nil && (forall i :: 0 <= i && i < len(s.Methods) ==> s.Methods[i] != nil && has(s.MethodNames, s.Methods[i].Name)) && (forall i, j :: 0 <= i && i < j && j < len(s.Methods) ==> s.Methods[i].Name != s.Methods[j].Name))
+
+//@ func parseMethod
+//@   trusted
+//@   ensures result1 == nil ==> result0 != nil && result0.Name == pm.Name
+//@   ensures result1 != nil ==> result0 == nil
+
+//@ func (*Service).parseMethod
+//@   safety[C14]
+//@   requires s != nil && s.Def != nil && pm != nil && METHS(s)
+//@   modifies model.Service.Methods at s
+//@   modifies maphas.map_string__model.Method at s.MethodNames
+//@   modifies mapval.*
+//@   modifies ptr#o
+//@   modifies ptr#f
+//@   ensures[C14] METHS(s)
+//@   ensures[C14] result == nil ==> len(s.Methods) == old(len(s.Methods)) + 1
+//@   ensures[C14] result != nil ==> len(s.Methods) == old(len(s.Methods))
+
+// method kinds: a oneway method has no response, subservice or channel; a channel carries messages
+//@ func (*Method).compileType
+//@   safety[C14]
+//@   requires m != nil
+//@   modifies model.Method.Type at m
+//@   ensures[C14] result == nil && m.Oneway ==> m.Response == nil && m.Subservice == nil && m.Channel == nil
+//@   ensures[C14] result == nil && m.Channel != nil ==> m.Subservice == nil
+//@   ensures[C14] result == nil && m.Channel != nil && m.Channel.In != nil ==> m.Channel.In.Kind == 20
+//@   ensures[C14] result == nil && m.Channel != nil && m.Channel.Out != nil ==> m.Channel.Out.Kind == 20
+
+// a resolved type: its kind is service exactly when it refers to a service definition
+//@ define RT(t) = ((t.Kind == 22) <==> (t.Ref != nil && t.Ref.Type == "service"))
+
+//@ func (*Type)._resolve
+//@   safety[C14]
+//@   requires t != nil && def != nil && t.Kind == 23
+//@   requires def.Type == "enum" || def.Type == "message" || def.Type == "struct" || def.Type == "service"
+//@   modifies model.Type.Kind at t
+//@   modifies model.Type.Ref at t
+//@   modifies model.Type.Import at t
+//@   ensures[C14] t.Ref == def && RT(t) && 19 <= t.Kind && t.Kind <= 22
+//@   ensures[C14] (t.Kind == 19 <==> def.Type == "enum") && (t.Kind == 20 <==> def.Type == "message") && (t.Kind == 21 <==> def.Type == "struct")
+
+//@ func (*Type).builtin
+//@   safety[C14]
+//@   requires t != nil
+//@   ensures[C14] result <==> (1 <= t.Kind && t.Kind <= 17)
+
+//@ func (*Type).primitive
+//@   safety[C14]
+//@   requires t != nil
+//@   ensures[C14] result <==> (2 <= t.Kind && t.Kind <= 14)
+
+// struct fields: value types only (primitives, bytes/string, enums and other structs)
+//@ func (*StructField).validate
+//@   safety[C14]
+//@   requires f != nil && f.Type != nil
+//@   ensures[C14] result == nil ==> (2 <= f.Type.Kind && f.Type.Kind <= 16) || f.Type.Kind == 19 || f.Type.Kind == 21
+
+// message fields: no service types, neither directly nor as list elements
+//@ func (*Field).resolved
+//@   safety[C14]
+//@   requires f != nil && f.Type != nil && RT(f.Type) && (f.Type.Element != nil ==> RT(f.Type.Element))
+//@   ensures[C14] result == nil ==> f.Type.Kind != 22
+//@   ensures[C14] result == nil && f.Type.Kind == 18 && f.Type.Element != nil ==> f.Type.Element.Kind != 22
+//@   loop 1 invariant t == f.Type || (f.Type.Kind != 22 && (t == f.Type.Element || (f.Type.Element != nil && f.Type.Element.Kind != 22)))
+
+// ---- imports: a package handed to an importer is completely compiled; a package that is still
+// being compiled (an import cycle) is rejected
+//@ define PKGS(x) = (x.Packages != nil && (forall k :: has(x.Packages, k) ==> x.Packages[k] != nil))
+
+// compile parses a directory and compiles it recursively (I/O): assumed
+//@ func (*Context).compile
+//@   trusted
+//@   modifies model.*
+//@   modifies maphas.*
+//@   modifies mapval.*
+//@   modifies ptr#o
+//@   modifies ptr#f
+//@   ensures result1 == nil ==> result0 != nil && !result0.Compiling
+//@   ensures result1 != nil ==> result0 == nil
+
+//@ func (*Context).getPackage
+//@   safety[C14]
+//@   requires x != nil && PKGS(x)
+//@   modifies model.*
+//@   modifies maphas.*
+//@   modifies mapval.*
+//@   modifies ptr#o
+//@   modifies ptr#f
+//@   ensures[C14] result1 == nil ==> result0 != nil && !result0.Compiling
+//@   ensures[C14] result1 != nil ==> result0 == nil
+//@   ensures[C14] old(has(x.Packages, id)) && old(mget(x.Packages, id).Compiling) ==> result1 != nil
+//@   loop 1 invariant 0 - 1 <= rangeindex && rangeindex < len(x.ImportPaths)
